@@ -141,6 +141,38 @@ def main():
         anchors["date.fromordinal"] += 1
     if datetime.date(1970, 1, 1).toordinal() != 719163 or datetime.date(1, 1, 1).toordinal() != 1 or datetime.date(9999, 12, 31).toordinal() != 3652059:
         report["failures"].append({"anchor": "epoch ordinal"})
+    # decimal observers (as_tuple) and the two's-complement meaning of int.to_bytes(n, "big", signed=True)
+    import decimal
+    anchors["decimal.as_tuple"] = anchors["to_bytes_signed_big"] = 0
+    for _ in range(3000):
+        sign = rng.randrange(2)
+        digs = tuple(rng.randrange(10) for _ in range(rng.randrange(1, 40)))
+        exp = rng.randrange(-30, 30)
+        d = decimal.Decimal((sign, digs, exp))
+        ok = (SC.is_decimal(d) and SC.dec_sign(d) in (0, 1) and SC.DIGITS_OK(SC.dec_digits(d), len(SC.dec_digits(d)))
+              and isinstance(SC.dec_exp(d), int))
+        # the unscaled integer at scale s (exponent + s >= 0) is the number times 10**s
+        sc = rng.randrange(max(0, -exp), max(0, -exp) + 5)
+        with decimal.localcontext() as ctx:
+            ctx.prec = 200
+            ok = ok and SC.UNSCALED(d, sc) == int(d.scaleb(sc))
+        if not ok:
+            report["failures"].append({"anchor": "decimal.as_tuple", "d": str(d)})
+        anchors["decimal.as_tuple"] += 1
+        n = rng.randrange(0, 12)
+        x = rng.choice([0, 1, -1, 127, 128, -128, -129, 2 ** (8 * n - 1) if n else 0, -(2 ** (8 * n - 1)) if n else 0,
+                        rng.randrange(-2 ** 90, 2 ** 90)])
+        try:
+            b = SC.int_to_bytes_signed_big(x, n)
+            good = (SC.FITS_SIGNED(x, n) or (n == 0 and x == -1)) and len(b) == n and sum(v << (8 * (n - 1 - i)) for i, v in enumerate(b)) == x % (1 << (8 * n))
+        except OverflowError:
+            good = not SC.FITS_SIGNED(x, n) and not (n == 0 and x == -1)
+        if not good:
+            report["failures"].append({"anchor": "to_bytes_signed_big", "x": x, "n": n})
+        anchors["to_bytes_signed_big"] += 1
+    for sp in (decimal.Decimal("NaN"), decimal.Decimal("Infinity"), decimal.Decimal("-Infinity")):
+        if isinstance(SC.dec_exp(sp), int):
+            report["failures"].append({"anchor": "special decimals have a str exponent", "d": str(sp)})
     # int(a / b) == a // b below 2**52 (ax_idiv_trunc): the dangerous inputs are a = k*b - 1 (quotient just below an integer)
     anchors["idiv_trunc"] = 0
     for _ in range(20000):
